@@ -12,19 +12,29 @@ import (
 
 func init() { Registry["C10"] = c10 }
 
-// auditBuilder: the function in Execute's call tree that calls NewAuditInfo.
+// auditBuilder: the NewAuditInfo() call in Execute's call tree that creates the task's record (the one not made
+// while loading an existing record from a file); returns the function and context it lives in.
 func (e *Env) auditBuilder() (*ssa.Function, *core.Ctx) {
-	sp := e.spine()
-	if sp == nil {
+	n := e.auditRecordNode()
+	if n == nil {
 		return nil, nil
 	}
+	return n.Ctx.Fn, n.Ctx
+}
+
+func (e *Env) auditRecordNode() *core.Node {
+	sp := e.spine()
+	if sp == nil {
+		return nil
+	}
 	nai := e.P.Func("NewAuditInfo")
+	um := e.P.Func("UnmarshalAuditInfoJSONFile")
 	for _, n := range sp.g.Nodes {
-		if n.IsCallToFn(nai) && nai != nil {
-			return n.Ctx.Fn, n.Ctx
+		if nai != nil && n.IsCallToFn(nai) && n.Kind != core.KAfter && !inCtxOfFn(n, um) {
+			return n
 		}
 	}
-	return nil, nil
+	return nil
 }
 
 func c10(e *Env) {
@@ -41,7 +51,7 @@ func c10(e *Env) {
 		return
 	}
 	g := sp.g
-	bfn, bctx := e.auditBuilder()
+	bfn, _ := e.auditBuilder()
 	if bfn == nil {
 		r.Ob("R1", "audit-builder", "anchor").Unknown(core.FuncName(a.execute), "no call of NewAuditInfo in Task.Execute's call tree")
 		return
@@ -50,8 +60,9 @@ func c10(e *Env) {
 	if ai == nil {
 		return
 	}
-	sy := e.symbolizer()
-	// stores and map updates on the record inside the builder's context
+	sy := e.xsym()
+	recNode := e.auditRecordNode()
+	// stores and map updates on the task's record, wherever in Execute's call tree they are made
 	type upd struct {
 		n     *core.Node
 		field string
@@ -59,21 +70,10 @@ func c10(e *Env) {
 		val   *core.Sym
 	}
 	var upds []upd
-	below := func(c *core.Ctx) bool {
-		for x := c; x != nil; x = x.Parent {
-			if x == bctx {
-				return true
-			}
-		}
-		return false
-	}
 	for _, n := range g.Nodes {
-		if !below(n.Ctx) {
-			continue
-		}
 		isRec := func(v ssa.Value) bool { // the record created by the builder's own NewAuditInfo() call
 			b := sy.InCtx(n.Ctx, v)
-			return b != nil && isCallSym(b, "NewAuditInfo") && b.Fn == bfn
+			return b != nil && isCallSym(b, "NewAuditInfo") && recNode != nil && b.Val == recNode.Instr.(ssa.Value)
 		}
 		switch x := n.Instr.(type) {
 		case *ssa.Store:
@@ -200,34 +200,22 @@ func c10(e *Env) {
 			continue
 		}
 		// complete loops; for the plain case the only admissible skip is the joined-port branch
-		// the chain of call sites from the update up to the builder's own body
-		chain := []*core.Node{u.n}
-		for c := u.n.Ctx; c != bctx && c != nil && c.CallNode != nil; c = c.Parent {
-			chain = append(chain, c.CallNode)
-		}
-		var loops []*core.Loop
-		var gparts []string
-		for _, cn := range chain {
-			loops = append(loops, core.LoopsOf(cn.Instr)...)
-			if gsx := guardsOf(sy, cn.Ctx.Fn, cn.Instr); gsx != "" {
-				gparts = append(gparts, gsx)
-			}
-		}
-		if len(loops) == 0 {
+		las := iterLoops(g, u.n)
+		if len(las) == 0 {
 			o.Fail(g.Where(u.n), "the Upstream entry is not set inside a loop over the inputs (only one input is linked)")
 			continue
 		}
 		okLoops := true
-		for _, ll := range loops {
-			if ex := p.EarlyExits(ll); len(ex) > 0 {
+		for _, la := range las {
+			if !e.loopHarmlessExits(g, la) {
 				okLoops = false
-				o.Fail(g.Where(u.n), "the loop linking the inputs can be left early: "+ex[0])
+				o.Fail(g.Where(u.n), "the loop linking the inputs can be left early")
 			}
 		}
 		if !okLoops {
 			continue
 		}
-		gs := strings.Join(gparts, " && ")
+		gs := strings.Join(e.chainGuards(g, u.n, las[len(las)-1]), " && ")
 		// admissible guards: loop continuation tests and the join flag
 		badGuard := ""
 		for _, gd := range strings.Split(gs, " && ") {
@@ -265,8 +253,16 @@ func c10(e *Env) {
 				if st, ok := in.(*ssa.Store); ok {
 					if fa, ok := st.Addr.(*ssa.FieldAddr); ok && fieldOfAddr(fa).Name() == "ID" {
 						found = true
-						s := sy.InFunc(nai, st.Val)
-						obID.Check(isCallSym(s, "randSeqLC"), e.where(st), s.String(), "AuditInfo.ID is "+s.String())
+						s := e.symbolizer().InFunc(nai, st.Val)
+						usesRand := false
+						if s.Op == "call" && s.Callee != nil {
+							for f := range p.Reachable(s.Callee) {
+								if strings.HasPrefix(f.String(), "math/rand.") || strings.HasPrefix(f.String(), "(*math/rand.") || strings.HasPrefix(f.String(), "crypto/rand.") {
+									usesRand = true
+								}
+							}
+						}
+						obID.Check(usesRand, e.where(st), s.String()+" (random id generator)", "AuditInfo.ID is "+s.String()+", not produced by a random id generator")
 					}
 				}
 			}
@@ -285,8 +281,10 @@ func c10(e *Env) {
 		o := r.Ob("R2", "audit-builder:"+ac.key+" per out-IP", ac.desc+" (complete loop over Task.OutIPs, action on every iteration)")
 		var sites []*core.Node
 		for _, n := range g.Nodes {
-			if n.Ctx == bctx && n.Callee != nil && core.FuncName(n.Callee) == ac.callee && n.Kind != core.KAfter {
-				sites = append(sites, n)
+			if n.Callee != nil && core.FuncName(n.Callee) == ac.callee && n.Kind != core.KAfter && !inCallback(n) {
+				if strings.Contains(sy.InCtx(n.Ctx, n.Call.Args[0]).String(), ".OutIPs") {
+					sites = append(sites, n)
+				}
 			}
 		}
 		if len(sites) == 0 {
@@ -294,60 +292,39 @@ func c10(e *Env) {
 			continue
 		}
 		for _, n := range sites {
-			recv := e.argSym(n, 0).String()
-			if !strings.Contains(recv, "val∈$t.OutIPs") {
-				o.Fail(g.Where(n), ac.callee+" is applied to "+recv+", not to every element of Task.OutIPs")
-				continue
-			}
-			okAll := true
-			for _, ll := range core.LoopsOf(n.Instr) {
-				if ex := p.EarlyExits(ll); len(ex) > 0 {
-					okAll = false
-					o.Fail(g.Where(n), "loop left early: "+ex[0])
-				}
-			}
-			if !okAll {
+			recv := sy.InCtx(n.Ctx, n.Call.Args[0]).String()
+			la, ok := e.loopOver(g, n, ".OutIPs")
+			if !ok {
+				o.Fail(g.Where(n), ac.callee+" is applied to "+trunc(recv, 80)+", not inside a loop over Task.OutIPs")
 				continue
 			}
 			if ac.key == "AddTags" {
-				arg := e.argSym(n, 1).String()
-				if !strings.Contains(arg, "(*FileIP).Tags(val∈$t.InIPs)") {
-					o.Fail(g.Where(n), "tags merged from "+arg+", not from every in-IP")
+				arg := sy.InCtx(n.Ctx, n.Call.Args[1]).String()
+				if !strings.Contains(arg, "(*FileIP).Tags(") || !strings.Contains(arg, ".InIPs") {
+					o.Fail(g.Where(n), "tags merged from "+trunc(arg, 100)+", not from every in-IP")
 					continue
 				}
+				// nested in a loop over the in-IPs that is entered on every iteration of the out-IP loop
+				inner, okIn := e.loopOver(g, n, ".InIPs")
+				if !okIn || !e.loopHarmlessExits(g, inner) {
+					o.Fail(g.Where(n), "the tags are not merged inside a complete loop over the in-IPs")
+					continue
+				}
+				// the inner loop's test is reached on every iteration of the outer loop
+				innerTest, _, okT := g.LoopTest(inner)
+				if okT && e.forAllIn(o, g, la, n, func(m *core.Node) bool { return m == innerTest || m == n }, core.Scenario{}, ac.key) {
+					o.OK(g.Where(n), ac.callee+" for every in-IP, on every iteration of the out-IP loop")
+				}
+				continue
 			}
 			if ac.key == "SetAuditInfo" {
-				arg := e.argSym(n, 1).String()
-				if !strings.Contains(arg, "NewAuditInfo()") {
-					o.Fail(g.Where(n), "the attached record is "+arg+", not the one just built")
+				arg := sy.InCtx(n.Ctx, n.Call.Args[1])
+				if !(isCallSym(arg, "NewAuditInfo") && recNode != nil && arg.Val == recNode.Instr.(ssa.Value)) {
+					o.Fail(g.Where(n), "the attached record is "+trunc(arg.String(), 80)+", not the one just built")
 					continue
 				}
 			}
-			// executed on every iteration of the out-IP loop
-			top := n
-			outer := core.LoopsOf(n.Instr)
-			if len(outer) == 0 {
-				o.Fail(g.Where(n), "not inside a loop over the out-IPs")
-				continue
-			}
-			outermost := outer[len(outer)-1]
-			if len(outer) > 1 {
-				// nested in a loop over the in-IPs: that inner loop must be entered on every iteration of the out-IP loop
-				inner := outer[0]
-				entered := true
-				for _, lp := range outermost.Header.Preds {
-					if outermost.Blocks[lp] && !inner.Header.Dominates(lp) {
-						entered = false
-					}
-				}
-				if entered {
-					o.OK(g.Where(n), ac.callee+"("+trunc(recv, 60)+") for every in-IP, on every iteration of the out-IP loop")
-				} else {
-					o.Fail(g.Where(n), "the loop merging the in-IP tags is not entered on every iteration of the out-IP loop")
-				}
-				continue
-			}
-			if e.forAllOutputsLoop(o, g, top, outermost, func(m *core.Node) bool { return m == n }, core.Scenario{}, ac.key) {
+			if e.forAllIn(o, g, la, n, func(m *core.Node) bool { return m == n }, core.Scenario{}, ac.key) {
 				o.OK(g.Where(n), ac.callee+"("+trunc(recv, 60)+")")
 			}
 		}
@@ -399,29 +376,13 @@ func fieldBaseType(v ssa.Value) *types.Named {
 
 // forAllOutputsLoop is forAllOutputs for an explicitly given (outer) loop.
 func (e *Env) forAllOutputsLoop(ob *core.Obligation, g *core.XG, action *core.Node, l *core.Loop, isAction func(*core.Node) bool, assume core.Scenario, what string) bool {
-	var head *core.Node
-	for _, in := range l.Header.Instrs {
-		if nx, ok := in.(*ssa.Next); ok {
-			for _, m := range g.Nodes {
-				if m.Ctx == action.Ctx && m.Instr == ssa.Instruction(nx) {
-					head = m
-				}
-			}
+	for _, la := range iterLoops(g, action) {
+		if la.L.Header == l.Header {
+			return e.forAllIn(ob, g, la, action, isAction, assume, what)
 		}
 	}
-	if head == nil {
-		ob.Unknown(g.Where(action), "range header of the out-IP loop not found")
-		return false
-	}
-	sc := assume
-	sc.Start = head
-	sc.Result = core.TupleAV(core.BoolAV(true), core.Top, core.Top)
-	res := g.Run(sc)
-	if w := res.ReachesAvoiding(func(m *core.Node) bool { return m == head }, isAction); w != nil {
-		ob.Fail(g.Where(action), what+": an iteration over the out-IPs can reach the next one without performing the action")
-		return false
-	}
-	return true
+	ob.Unknown(g.Where(action), "enclosing loop not found")
+	return false
 }
 
 func (e *Env) c10Tags() {
@@ -451,43 +412,41 @@ func (e *Env) c10Tags() {
 	if n == 0 {
 		ob.Unknown("-", "no store to AuditInfo.Tags found")
 	}
-	// task tags from the tags of every in-IP (process.go createTasks)
+	// task tags from the tags of every in-IP (the task-feeding goroutine)
 	ob2 := r.Ob("R4", "createTasks:task-tags←in-IP tags", "the tags of a task are derived from the tags of every in-IP (complete loops)")
-	ct := p.DeclaredMethod("scipipe", "Process", "createTasks")
-	if ct == nil {
-		ob2.Unknown("-", "createTasks not found")
+	closure, gf := e.taskFeeder()
+	if closure == nil {
+		ob2.Unknown("-", "task-feeding goroutine not found")
 		return
 	}
 	found := false
-	for _, an := range ct.AnonFuncs {
-		for _, b := range an.Blocks {
-			for _, in := range b.Instrs {
-				mu, ok := in.(*ssa.MapUpdate)
-				if !ok {
-					continue
-				}
-				v := e.symbolizer().InFunc(an, mu.Value).String()
-				if !strings.Contains(v, "(*FileIP).Tags(") {
-					continue
-				}
-				found = true
-				okL := true
-				for _, ll := range core.LoopsOf(mu) {
-					if kind, _ := core.HeaderTest(ll); kind != "range" {
-						continue // the endless task loop
-					}
-					if ex := p.EarlyExits(ll); len(ex) > 0 {
-						okL = false
-						ob2.Fail(e.where(mu), "loop over the in-IP tags left early: "+ex[0])
-					}
-				}
-				if okL {
-					ob2.OK(e.where(mu), fmt.Sprintf("tags[...] = %s", trunc(v, 100)))
-				}
+	for _, n := range gf.Nodes {
+		mu, ok := n.Instr.(*ssa.MapUpdate)
+		if !ok {
+			continue
+		}
+		v := e.symbolizer().InCtx(n.Ctx, mu.Value).String()
+		if !strings.Contains(v, "(*FileIP).Tags(") {
+			continue
+		}
+		found = true
+		okL := true
+		nRange := 0
+		for _, la := range iterLoops(gf, n) {
+			if kind, _ := core.HeaderTest(la.L); kind != "range" {
+				continue
 			}
+			nRange++
+			if !e.forAllIn(ob2, gf, la, n, func(m *core.Node) bool { return m == n }, core.Scenario{}, "derivation of task tags") {
+				okL = false
+			}
+			break // the innermost range loop (over the tags of one IP); the loop over the IPs is checked next
+		}
+		if okL && nRange > 0 {
+			ob2.OK(gf.Where(n), fmt.Sprintf("tags[...] = %s", trunc(v, 100)))
 		}
 	}
 	if !found {
-		ob2.Fail(core.FuncName(ct), "task tags are not derived from the in-IPs' tags")
+		ob2.Fail(core.FuncName(closure), "task tags are not derived from the in-IPs' tags")
 	}
 }
